@@ -513,9 +513,17 @@ func mag(t *rapid.T) float64 {
 	return math.Pow(10, rapid.Float64Range(-2, 3).Draw(t, "mag"))
 }
 
-// axisAligned turns the vector exactly vertical (q=0) or horizontal (q=1), keeping its length and sense.
+// axisAligned turns the vector exactly vertical (q=0), horizontal (q=1) or diagonal (q=2: both
+// components of exactly the same magnitude), keeping its length (q<2) and sense.
 func axisAligned(x, y float32, q int) (float32, float32) {
 	l := float32(math.Hypot(float64(x), float64(y)))
+	if q == 2 {
+		d := float32(math.Abs(float64(x)))
+		if y < 0 {
+			return x, -d
+		}
+		return x, d
+	}
 	if q == 0 {
 		if y < 0 {
 			l = -l
@@ -547,13 +555,13 @@ func genCase(t *rapid.T) (Case, []string) {
 	case "linear":
 		x1, y1 := pt("x1"), pt("y1")
 		dx, dy := vec(t, m, "d")
-		if q := rapid.IntRange(0, 7).Draw(t, "axisaligned"); q < 2 {
+		if q := rapid.IntRange(0, 7).Draw(t, "axisaligned"); q < 3 {
 			dx, dy = axisAligned(dx, dy, q)
 		}
 		c.F = []ops.F32{ops.F32(x1), ops.F32(y1), ops.F32(x1 + dx), ops.F32(y1 + dy)}
 	case "circular":
 		rx, ry := vec(t, m, "r")
-		if q := rapid.IntRange(0, 7).Draw(t, "axisaligned"); q < 2 {
+		if q := rapid.IntRange(0, 7).Draw(t, "axisaligned"); q < 3 {
 			rx, ry = axisAligned(rx, ry, q)
 		}
 		c.F = []ops.F32{ops.F32(pt("cx")), ops.F32(pt("cy")), ops.F32(rx), ops.F32(ry)}
